@@ -6,6 +6,9 @@ silently depend on:
   path           name of the directory everything of the case lives in: with glob metacharacters, blanks,
                  braces or non-ASCII letters (a run folder called "scan [T=300K]" is an ordinary thing)
   stdout         encoding of sys.stdout (strict): a C-locale console or a log file opened as latin-1 / ascii
+  own_filesystem the directory of the case is a mount point of its own (a scratch disk, /dev/shm, a network share): a
+                 rename between it and anything outside - the system's temporary directory, say - fails with EXDEV,
+                 as it does between real file systems; shutil.move then copies and deletes
   text_encoding  what open() without `encoding=` means in this process (the locale's preferred encoding), applied
                  by the file-system seam to every text-mode open below the scratch root, reads included
 """
@@ -26,6 +29,8 @@ def gen_env(tape):
         env["stdout"] = tape.pick(["ascii", "latin-1"], "env-stdout-enc")
     if tape.coin(0.08, "env-text-encoding"):
         env["text_encoding"] = tape.pick(["ascii", "latin-1"], "env-text-enc")
+    if tape.coin(0.3, "env-own-filesystem"):
+        env["own_filesystem"] = True
     return env or None
 
 
